@@ -16,6 +16,7 @@ import (
 	"net/netip"
 	"strings"
 	"sync"
+	"sync/atomic"
 	"testing"
 	"time"
 
@@ -305,7 +306,7 @@ func (s *vc06Server) close() {
 func TestVerifC06UpstreamExchange(t *testing.T) {
 	st := vstat.New("C06", "forward.exchange",
 		"rapid (upstream network any/udp/tcp, history of valid marker exchanges, next reply as above, served with the request's ID or its own) through the real UpstreamPlain.Exchange against scripted loopback UDP+TCP servers; oracle: accepted iff the reply's own bytes decode and ID, question name (case-insensitive) and type match, and then the result equals that decode; non-trivial = reply inconsistent; distinct by (network, reply bytes)",
-		"accepted", "rejected", "kind-header-only", "kind-pointer", "kind-counts", "kind-truncated", "tcp-reply-in-two-segments", "stray-duplicate-on-pooled-udp-socket", "tcp-closed-without-reply", "stray-duplicate-and-tcp-fallback-fails")
+		"accepted", "rejected", "kind-header-only", "kind-pointer", "kind-counts", "kind-truncated", "tcp-reply-in-two-segments", "stray-duplicate-on-pooled-udp-socket", "tcp-closed-without-reply", "stray-duplicate-and-tcp-fallback-fails", "follow-up-with-fixed-id-and-question", "follow-up-after-stray-duplicate")
 	st.Finish(t)
 
 	var srv *vc06Server
@@ -435,6 +436,59 @@ func TestVerifC06UpstreamExchange(t *testing.T) {
 
 		if resp != nil && strings.Contains(vwire.Describe(resp, nil), vwire.Marker) {
 			t.Fatalf("exchange %s: result contains data of an earlier reply: %s", nw, vwire.Describe(resp, nil))
+		}
+
+		// Follow-up exchanges with one fixed ID and question, as DoH and DoQ
+		// clients send them (ID 0): the upstream numbers its replies, and each
+		// result must be the reply to this very request.  A pooled socket that
+		// has fallen one reply behind hands out the previous one.
+		if nw == NetworkTCP {
+			return
+		}
+
+		var seq atomic.Int32
+		srv.set(func(q []byte) []byte {
+			m := &dns.Msg{}
+			if m.Unpack(q) != nil {
+				return nil
+			}
+
+			r := (&dns.Msg{}).SetReply(m)
+			n := seq.Add(1)
+			r.Answer = []dns.RR{&dns.A{Hdr: dns.RR_Header{Name: m.Question[0].Name, Rrtype: dns.TypeA, Class: dns.ClassINET, Ttl: 10}, A: net.IP{10, 0, 0, byte(n)}}}
+			b, _ := r.Pack()
+
+			return b
+		})
+
+		for i, n := 0, rapid.IntRange(1, 3).Draw(t, "followUps"); i < n; i++ {
+			freq := (&dns.Msg{}).SetQuestion("follow.example.", dns.TypeA)
+			freq.Id = 0
+			before := seq.Load()
+			fresp, _, ferr := u.Exchange(ctx, freq)
+			after := seq.Load()
+			if ferr != nil {
+				// A stray datagram may make a UDP-only exchange fail; that is
+				// not this check's subject.
+				continue
+			}
+
+			st.Class("follow-up-with-fixed-id-and-question")
+			if dup {
+				st.Class("follow-up-after-stray-duplicate")
+			}
+
+			got := -1
+			if len(fresp.Answer) == 1 {
+				if a, ok := fresp.Answer[0].(*dns.A); ok {
+					got = int(a.A.To4()[3])
+				}
+			}
+
+			if got <= int(before) || got > int(after) {
+				t.Fatalf("exchange %s (stray duplicate before: %t): follow-up %d got the upstream's reply number %d, but the replies to this request are numbers %d..%d: an earlier client's reply was handed out",
+					nw, dup, i, got, before+1, after)
+			}
 		}
 	})
 }
